@@ -340,7 +340,8 @@ func filterEscapejs(in *Value, param *Value) (*Value, *Error) {
 	idx := 0
 	for idx < len(sin) {
 		c, size := utf8.DecodeRuneInString(sin[idx:])
-		if c == utf8.RuneError {
+		if c == utf8.RuneError && size <= 1 {
+			// an invalid byte (a U+FFFD that is written in the input has size 3)
 			idx += size
 			continue
 		}
